@@ -349,7 +349,47 @@ fn sweep_scenarios(st: &Stats, sizes: &[usize], limit_s: u64) {
     }
 }
 
+/// child process: one call on operands given bit-exactly in a replay file
+pub fn raw_child(path: &str) -> i32 {
+    silence_panics();
+    let case: Value = serde_json::from_str(&std::fs::read_to_string(path).expect("replay file")).expect("json");
+    let (a, b) = (from_hex_bits(&case["A"]).expect("A"), from_hex_bits(&case["B"]).expect("B"));
+    let o = call_full(&a, &b, op_from(case["op"].as_str().unwrap()), ft_from(case["ft"].as_str().unwrap_or("f64")), Pairing::MM);
+    match o.res {
+        Ok(r) => println!("RAW-OK events={} result={}", o.events, hex(&r)),
+        Err(m) => println!("RAW-PANIC {m}"),
+    }
+    0
+}
+
 pub fn replay(case: &Value, verbose: bool) -> Vec<String> {
+    if case["kind"] == "raw" {
+        // a call that did not return: re-run it in a child process under a time limit
+        let path = format!("/tmp/verif-raw-{}.json", std::process::id());
+        std::fs::write(&path, serde_json::to_string(case).unwrap()).unwrap();
+        let exe = std::env::current_exe().unwrap();
+        let limit = crate::watch::LIMIT_MS / 1000;
+        let out = Command::new("timeout").arg(limit.to_string()).arg(exe).args(["--raw-call", &path]).output();
+        let _ = std::fs::remove_file(&path);
+        let op = case["op"].as_str().unwrap_or("");
+        return match out {
+            Ok(o) if o.status.code() == Some(124) => vec![format!("C03 no-return-within-{limit}s {op}")],
+            Ok(o) => {
+                let so = String::from_utf8_lossy(&o.stdout).to_string();
+                if verbose {
+                    println!("{}", so.chars().take(400).collect::<String>());
+                }
+                if so.contains("RAW-PANIC") {
+                    vec![format!("C03 panic {op}")]
+                } else if !o.status.success() {
+                    vec![format!("C03 abort {op}")]
+                } else {
+                    vec![]
+                }
+            }
+            Err(_) => vec![],
+        };
+    }
     match case["kind"].as_str().unwrap() {
         "degen" => {
             let fam = family_cached(case["family"].as_str().unwrap());
